@@ -55,7 +55,7 @@ def gen_script(rng: Rng, tag: str) -> dict:
         # helpers live in a small set of custom domains at different versions: Opset objects are
         # process-wide singletons per (class, domain, version), shared by every script in the process
         if rng.chance(0.6):
-            dom, ver_c = rng.choice(["dsim.custom", "dsim.other"]), rng.randint(1, 3)
+            dom, ver_c = "dsim.custom", rng.randint(1, 3)
             lines += ["from onnxscript.values import Opset", f"CUSTOM = Opset({dom!r}, {ver_c})", ""]
             hdec = "@script(CUSTOM)"
         else:
